@@ -28,6 +28,7 @@ import (
 	"sync/atomic"
 	"time"
 
+	"ergo.services/ergo/act"
 	"ergo.services/ergo/gen"
 	"ergo.services/ergo/net/edf"
 
@@ -496,7 +497,16 @@ type target struct {
 	kind   string // pid | name | meta | rpid | rname
 	remote bool
 	meta   bool
+	pool   bool // an act.Pool: requests are forwarded to one of its workers
 }
+
+// poolB is an act.Pool whose workers are instrumented callees
+type poolB struct {
+	act.Pool
+	opts act.PoolOptions
+}
+
+func (p *poolB) Init(args ...any) (act.PoolOptions, error) { return p.opts, nil }
 
 var nodeA, nodeB *hk.HNode
 
@@ -599,8 +609,33 @@ func runRound(rc roundCfg) {
 		return pid, cfg.id, err
 	}
 	var metas []*actors.Meta
+	var workerMu sync.Mutex
+	var workers []*actors.Inst
+	if rc.kind == "pool" {
+		for k := 0; k < 2; k++ {
+			calleeSeq++
+			cfg := &calleeCfg{b: b, id: calleeSeq, third: getThirdA}
+			wf := actors.NewProbeMulti(fmt.Sprintf("%s/pool%d/worker", rc.id, cfg.id), calleeHooks(cfg), func(i *actors.Inst) {
+				workerMu.Lock()
+				workers = append(workers, i)
+				workerMu.Unlock()
+			})
+			size := int64(2 + k) // pools of 2 and 3 workers
+			pid, err := spawn(nodeA, func() gen.ProcessBehavior {
+				return &poolB{opts: act.PoolOptions{PoolSize: size, WorkerFactory: wf}}
+			})
+			if err != nil {
+				fail("spawn pool: " + err.Error())
+				return
+			}
+			targets = append(targets, target{to: pid, text: fmt.Sprintf("pool:pool%d size=%d", cfg.id, size), kind: "pool", pool: true})
+		}
+	}
 	if useLocal {
 		nPid := 3
+		if rc.kind == "pool" {
+			nPid = 1
+		}
 		if rc.kind == "meta" {
 			nPid = 1
 		}
@@ -723,6 +758,9 @@ func runRound(rc roundCfg) {
 			t := targets[rng.Intn(len(targets))]
 			r := Req{Caller: c, N: n, Mode: "imm", Via: "sync"}
 			timeout := 3
+			if rc.kind == "pool" {
+				timeout = 2 // requests queued at a worker that terminates are lost
+			}
 			switch {
 			case s == 0:
 			case s == latePos:
@@ -731,6 +769,10 @@ func runRound(rc roundCfg) {
 				if rng.Intn(2) == 0 {
 					r.Flush = 1 + rng.Intn(3)
 				}
+			case s == diePos && t.pool:
+				// the worker that gets this request terminates; a later request finds the dead slot and the pool respawns it
+				r.Mode = []string{"die", "dier"}[rng.Intn(2)]
+				timeout = 1
 			case s == diePos && !t.meta:
 				r.Mode = []string{"die", "dier"}[rng.Intn(2)]
 				timeout = 1
@@ -805,6 +847,17 @@ func runRound(rc roundCfg) {
 		}
 	}
 	hk.StressOff()
+	// pool workers (also the respawned ones) must have drained their mailboxes before the presentations are counted
+	workerMu.Lock()
+	for _, w := range workers {
+		if w.PID != (gen.PID{}) {
+			pidsA = append(pidsA, w.PID)
+		}
+	}
+	if rc.kind == "pool" {
+		hk.Stat("pool_workers_respawned_after_termination", int64(len(workers)-5))
+	}
+	workerMu.Unlock()
 	quiet := waitIdle(nodeA, pidsA)
 	if nodeB != nil && len(pidsB) > 0 {
 		quiet = waitIdle(nodeB, pidsB) && quiet
@@ -1046,7 +1099,7 @@ func runRound(rc roundCfg) {
 
 func main() {
 	hk.InstallHook()
-	hk.Rule("rounds: 64 concurrent caller processes x seeded scripts of sequential Calls to shared callees (kinds: pid, registered name incl. split handlers, meta alias, remote pid/name/alias across a second node, in the remote and mixed rounds callers live on both nodes; reply by HandleCall return value, SendResponse from the callee later, from a third process, twice, as error, never (1 s timeout), callee terminating). Before its own reply the answering process re-sends replies made for EARLIER requests of the same caller (incl. the timed-out ones), replies with another caller's ref, and the reply to another process, each alternately as value (SendResponse) and as tagged error (SendResponseError); a third process sprays 4..15 stale replies at the idle caller (channel capacity 10). One case = one caller script. Non-trivial iff at least one Call returned its own reply although >=1 stale reply, whose SendResponse returned nil, preceded that reply in the caller's FIFO response channel (sent by the answering process before the own reply, or accepted while the caller was idle, or a duplicate queued behind the previous own reply; for remote callees: sent without error on the same order-preserving connection). Distinct = round kind x target kinds used x observed classes (late reply of a timed-out request while waiting, >10 stale, foreign ref, dup, error reply, callee terminated, ignored at replier, third, async). Scenario W: ref-wrap history, non-trivial iff the later request really carried the same ref as the timed-out one. Scenario X: reply with a ref minted by another node, non-trivial iff the two outstanding requests really carried refs with equal ids minted by different nodes.")
+	hk.Rule("rounds: 64 concurrent caller processes x seeded scripts of sequential Calls to shared callees (kinds: pid, registered name incl. split handlers, meta alias, act.Pool of 2 and 3 instrumented workers which terminate now and then so that later requests take the pool's respawn branch (presentations are counted across all workers), remote pid/name/alias across a second node, in the remote and mixed rounds callers live on both nodes; reply by HandleCall return value, SendResponse from the callee later, from a third process, twice, as error, never (1 s timeout), callee terminating). Before its own reply the answering process re-sends replies made for EARLIER requests of the same caller (incl. the timed-out ones), replies with another caller's ref, and the reply to another process, each alternately as value (SendResponse) and as tagged error (SendResponseError); a third process sprays 4..15 stale replies at the idle caller (channel capacity 10). One case = one caller script. Non-trivial iff at least one Call returned its own reply although >=1 stale reply, whose SendResponse returned nil, preceded that reply in the caller's FIFO response channel (sent by the answering process before the own reply, or accepted while the caller was idle, or a duplicate queued behind the previous own reply; for remote callees: sent without error on the same order-preserving connection). Distinct = round kind x target kinds used x observed classes (late reply of a timed-out request while waiting, >10 stale, foreign ref, dup, error reply, callee terminated, ignored at replier, third, async). Scenario W: ref-wrap history, non-trivial iff the later request really carried the same ref as the timed-out one. Scenario X: reply with a ref minted by another node, non-trivial iff the two outstanding requests really carried refs with equal ids minted by different nodes.")
 	hk.Assume("the harness callees are the only repliers; reply identity (caller,n,callee,no) is carried in the payload")
 	hk.Assume("a caller process issues its Calls sequentially (a process can have one outstanding Call), so every ticket of an earlier request is stale by construction")
 	for _, v := range []any{Req{}, Rep{}, Fwd{}, Spray{}} {
@@ -1071,7 +1124,7 @@ func main() {
 		nodeB = nil
 	}
 
-	kinds := []string{"local", "name", "meta", "remote", "mixed"}
+	kinds := []string{"local", "name", "meta", "pool", "remote", "mixed"}
 	reps := hk.Pick(2, 50)
 	for k := 0; k < reps; k++ {
 		for _, kind := range kinds {
